@@ -59,6 +59,16 @@ theorem reload_eq_source (inv : Arr → Arr) (label : String) (s : Source) (h : 
       v.channelPositions = ⟨[s.channelMap.length, 2], s.positions.map Cell.num⟩ :=
   Lemmas.reload_eq_source inv label s h
 
+/-- … and the reloaded template waveforms are the exported ones (all-NaN templates zeroed, as the
+loader does) on the exported per-template channel lists, again for any label: the labelled
+`templates.waveforms` file is found by the dotted wildcard, never confused with
+`templates.waveformsChannels`. -/
+theorem reload_templates (inv : Arr → Arr) (label : String) (s : Source) (h : SourceOK s) :
+    ∃ v d', load inv (exportDir label s) = .ok (v, d') ∧
+      v.templates = some (zeroNanTemplates (atleast 3 (squeeze s.waveforms))) ∧
+      v.templateCols = some (squeeze (scrub s.waveformChannels)) :=
+  Lemmas.reload_templates inv label s h
+
 example : labelled "probe00" "spikes.times" = "spikes.times.probe00.npy" := by decide
 example : globMatch "spikes.times*.npy" (labelled "probe00" "spikes.times") = true := by decide
 example : globMatch "templates.waveforms.*.npy" (labelled "p" "templates.waveformsChannels") = false := by decide
